@@ -68,18 +68,17 @@ package escape
 
 // computeEdgeClosure propagates the status of a to b (and onwards): afterwards b is
 // at least as escaped as a was; no status is lowered; edges are untouched (frame);
-// and if every edge other than a->b was closed before (target at least as escaped
-// as its source), then EVERY edge is closed afterwards -- the worklist must re-visit
-// every node whose status it raises.
+// and every edge that was closed before (target at least as escaped as its source),
+// and the edge a->b itself, is closed afterwards -- the worklist must re-visit every
+// node whose status it raises.
 //@ spec edge(g *EscapeGraph, x *Node, y *Node) bool = has(g.edges, x) && has(g.edges[x], y)
 //@ spec inWL(wl []*Node, x *Node) bool = exists k int :: 0 <= k && k < len(wl) && wl[k] == x
 //@ func EscapeGraph.computeEdgeClosure
 //@   property C15
 //@   requires g != nil && g.status != nil && g.edges != nil && g.rationales != nil
-//@   requires closed_except: forall x *Node, y *Node :: edge(g, x, y) && !(x == a && y == b) ==> g.status[y] >= g.status[x]
 //@   ensures extensive{grew,grew2}: statusGrew(g)
 //@   ensures propagated{prop,prop2}: g.status[b] >= old(g.status[a])
-//@   ensures closed{closed_except,pending,pending2}: forall x *Node, y *Node :: edge(g, x, y) ==> g.status[y] >= g.status[x]
+//@   ensures closed{pending,pending2}: forall x *Node, y *Node :: edge(g, x, y) && (old(g.status[y] >= g.status[x]) || (x == a && y == b)) ==> g.status[y] >= g.status[x]
 //@   modifies map(*Node;EscapeStatus), map(*Node;*dataflow.EscapeRationale)
 //@   loop node invariant fresh{fresh,fresh2}: isfresh(worklist)
 //@   loop succ invariant fresh2{fresh,fresh2}: isfresh(worklist)
@@ -89,8 +88,8 @@ package escape
 //@   loop node invariant prop{prop,prop2,grew,grew2}: g.status[b] >= old(g.status[a])
 //@   loop succ invariant grew2{grew,grew2}: statusGrew(g)
 //@   loop succ invariant prop2{prop,prop2,grew,grew2}: g.status[b] >= old(g.status[a])
-//@   loop node invariant pending{closed_except,pending,pending2,cur}: forall x *Node, y *Node :: edge(g, x, y) ==> g.status[y] >= g.status[x] || inWL(worklist, x)
-//@   loop succ invariant pending2{pending,pending2,cur}: forall x *Node, y *Node :: edge(g, x, y) ==> g.status[y] >= g.status[x] || inWL(worklist, x) || (x == node && !visited(succ, y))
+//@   loop node invariant pending{pending,pending2,cur}: forall x *Node, y *Node :: edge(g, x, y) && (old(g.status[y] >= g.status[x]) || (x == a && y == b)) ==> g.status[y] >= g.status[x] || inWL(worklist, x)
+//@   loop succ invariant pending2{pending,pending2,cur}: forall x *Node, y *Node :: edge(g, x, y) && (old(g.status[y] >= g.status[x]) || (x == a && y == b)) ==> g.status[y] >= g.status[x] || inWL(worklist, x) || (x == node && !visited(succ, y))
 //@   loop succ invariant cur{cur}: g.status[node] == nodeStatus
 
 // MergeNodeStatus raises the status of n to at least s and never lowers any status.
@@ -99,9 +98,12 @@ package escape
 //@   requires g != nil && g.status != nil && g.edges != nil && g.rationales != nil
 //@   ensures status_grew: statusGrew(g)
 //@   ensures at_least: g.status[n] >= s
+//@   ensures closed_kept{kept}: forall x *Node, y *Node :: edge(g, x, y) && old(g.status[y] >= g.status[x]) && x != n ==> g.status[y] >= g.status[x]
+//@   ensures closed_from_n{kept}: forall y *Node :: edge(g, n, y) && old(!has(g.status, n) || s > g.status[n]) ==> g.status[y] >= g.status[n]
 //@   modifies map(*Node;EscapeStatus), map(*Node;*dataflow.EscapeRationale)
 //@   loop pointee invariant grew: statusGrew(g)
 //@   loop pointee invariant atl: g.status[n] >= s
+//@   loop pointee invariant kept{kept}: forall x *Node, y *Node :: edge(g, x, y) && (old(g.status[y] >= g.status[x]) || x == n) ==> g.status[y] >= g.status[x] || (x == n && !visited(pointee, y))
 
 // ---------------------------------------------------------------------------
 // C14: the call-site context in which a callee's locality is computed maps EVERY
